@@ -135,6 +135,7 @@ pub fn gen_schema(rng: &mut Rng) -> (SchemaDoc, SchemaInfo) {
         let members = subset(rng, &obj_names, 1, 3);
         defs.push(TypeDef::Union { name: n.clone(), members });
     }
+    let mut input_defaults: Vec<(String, String, String)> = vec![];
     let input_names = subset(rng, &["Filter".to_string(), "PageInput".to_string(), "oneof_in".to_string(), "Tree".to_string()], 0, 3);
     let in_leaf: Vec<String> = ["Int", "String", "ID", "Boolean", "Float"].iter().map(|s| s.to_string()).chain(scalars.iter().cloned()).chain(enums.iter().map(|e| e.0.clone())).collect();
     let in_field_pool = ["first", "after", "nameLike", "sub", "and_also", "Or", "type", "value", "ids"];
@@ -152,6 +153,18 @@ pub fn gen_schema(rng: &mut Rng) -> (SchemaDoc, SchemaInfo) {
             // a non-null self/mutual reference without a list is not a finite GraphQL value; keep such edges nullable or in lists
             let ty = if input_names.contains(&leaf) && matches!(ty, GType::NonNull(ref inner) if matches!(**inner, GType::Named(_))) { GType::named(&leaf) } else { ty };
             fields.push((fname, ty));
+        }
+        if !one_of {
+            for (fname, ty) in &fields {
+                let leaf = ty.name().to_string();
+                let plain = matches!(ty, GType::Named(_)) || matches!(ty, GType::NonNull(inner) if matches!(**inner, GType::Named(_)));
+                if plain && rng.chance(1, 4) {
+                    let dv = match leaf.as_str() { "Int" => Some("3"), "Boolean" => Some("true"), "String" => Some("\"s\""), "Float" => Some("1.5"), "ID" => Some("\"id\""), _ => None };
+                    if let Some(dv) = dv {
+                        input_defaults.push((n.clone(), fname.clone(), dv.to_string()));
+                    }
+                }
+            }
         }
         defs.push(TypeDef::Input { name: n.clone(), fields, one_of });
     }
@@ -196,7 +209,7 @@ pub fn gen_schema(rng: &mut Rng) -> (SchemaDoc, SchemaInfo) {
     }
     let schema_block = if explicit { Some((Some(qname.to_string()), if has_mut { Some(mname.to_string()) } else { None }, if has_sub { Some(sname.to_string()) } else { None })) } else { None };
     (
-        SchemaDoc { defs, schema_block },
+        SchemaDoc { defs, schema_block, input_defaults },
         SchemaInfo { scalars, enums: enums.iter().map(|e| e.0.clone()).collect(), interfaces: iface_names, objects: obj_names, unions: union_names, inputs: input_names },
     )
 }
